@@ -374,6 +374,52 @@ def _tok_edit(seed: int, kind: int, pos: int, code: int, noloc: bool) -> bool:
     return result(ok, True)
 
 
+# ---- reserved words at EVERY Name position of EVERY grammar sentence ("Name but not true, false or null", "Name but not on", contextual keywords)
+RESERVED = ("true", "false", "null", "on", "fragment", "query", "mutation", "subscription", "schema", "type", "input", "enum", "interface", "union", "scalar",
+            "directive", "extend", "implements")
+_SENTENCE_TOKENS = None
+
+
+def sentence_tokens():
+    global _SENTENCE_TOKENS
+    if _SENTENCE_TOKENS is None:
+        out = []
+        for entry, text in G.sentence_texts():
+            toks = [(k, v) for (k, a, b, v) in R.tokens(text)]
+            names = [i for i, (k, v) in enumerate(toks) if k == "Name"]
+            out.append((entry if entry in ("value", "type") else "document_ts_fragvars", toks, names))
+        _SENTENCE_TOKENS = out
+    return _SENTENCE_TOKENS
+
+
+N_SENT = len(list(G.sentence_texts()))
+
+
+def _reserved_names(sent: int, which: int, word: int, noloc: bool) -> bool:
+    """
+    pre: 0 <= sent < N_SENT and 0 <= which < 24 and 0 <= word < len(RESERVED)
+    pre: thorough() or word < 4
+    pre: shard_of(sent)
+    post: _
+    """
+    S = concrete_int(sent, 0, N_SENT - 1)
+    with untraced():
+        entry, toks, names = sentence_tokens()[S]
+        n_names = len(names)
+    if which >= n_names:
+        return result(True, False)
+    Wh = concrete_int(which, 0, 23)
+    W = RESERVED[concrete_int(word, 0, len(RESERVED) - 1)]
+    with untraced():
+        new = list(toks)
+        new[names[Wh]] = ("Name", W)
+        sup = lambda i: new[i] if i < len(new) else None  # noqa: E731
+        verdict, pulled = run_parser(entry, sup, len(new), True if noloc else False)
+        exp = G.recognises(new, **grammar_args(entry))
+        ok = (verdict == "ok") == exp and verdict in ("ok", "error")
+    return result(ok, True)
+
+
 def parse_text_agree(entry, s):
     """whole pipeline on a text: real parse entry point vs reference lexer + grammar"""
     try:
@@ -482,6 +528,14 @@ CONDITIONS = [
         symbolic={"seed": "choice: which accepted seed", "kind": "choice: substitute/delete/insert", "pos": "choice: position", "code": "choice: token code", "noloc": "choice"},
         assumptions=["as tok_exec; seeds are tokenised by the reference lexer"],
         witness={"seed": 0, "kind": 0, "pos": 1, "code": 14, "noloc": False},
+    ),
+    Cond(
+        name="reserved_names", fn=_reserved_names, quick=150, thorough=600, per_path=30, shards_quick=16, shards_thorough=16,
+        bound="one witness text per expanded production alternative of the grammar (%d sentences) x EVERY Name position of the sentence x %d reserved words put there (quick: true, false, null, on): "
+              "the parser accepts exactly when the grammar does (enum values and default values 'but not true, false or null', fragment names 'but not on', keywords that are ordinary names elsewhere)" % (N_SENT, len(RESERVED)),
+        symbolic={"sent": "choice: sentence", "which": "choice: which Name token", "word": "choice: reserved word", "noloc": "choice"},
+        assumptions=["as tok_exec; sentences are tokenised by the reference lexer"],
+        witness={"sent": 0, "which": 0, "word": 0, "noloc": False},
     ),
     Cond(
         name="tok_exec", fn=_tok_exec, quick=160, thorough=1500, per_path=30, shards_quick=6, shards_thorough=6,
